@@ -17,6 +17,11 @@ from checks.c08 import cfg
 def run(ctx):
     ctx.build_harness()
     quick = ctx.tier == "quick"
+    # the abstract tiling (blocks emitted left to right, non-empty, lines never decreasing) for ANY number of blocks: inductive invariant
+    ind = ctx.apalache_inductive("Proto")
+    ctx.extra["tiling_invariant_inductive_apalache"] = {True: "yes", False: "NO", None: "not run (apalache unavailable or timed out)"}[ind]
+    if ind is False:
+        raise vlib.Infra("Proto.tla: IndInv is not inductive (a defect of the specification, not a verdict)")
     ctx.tlc("Stream", cfg(4 if quick else 6, 2, emit=False), name="Stream_tiling", workers=16, timeout=3000)
     base = ctx.scratch + "/c01.ndjson"
     nsh = 8 if quick else 16
